@@ -2267,7 +2267,7 @@ def check(ctx):
                 'token by token with the Lean model, the same generator with real floats for the oracle-only stream; '
                 'evaluations = operations executed; non-trivial = a read of a view that was read before the latest '
                 'mutation (read-mutate-read), a transmission, or a rejected call')
-    core.prove(ctx, MODULE, generated=[], drivers=[DRIVER], scratch=ctx.scratch)
+    core.prove(ctx, MODULE, generated=['C08Effects'], drivers=[DRIVER], scratch=ctx.scratch)
     ctx.required_branches = list(REQUIRED)
     n_hist, maxlen = (500, 30) if quick else (6000, 60)
     corpus = corpus_cases()
